@@ -44,6 +44,9 @@
  */
 
 #include "tsgMathUtils.hpp"
+#ifdef TASMANIAN_VERIF_HOOKS
+#include "tsgVerifHooks.hpp"
+#endif
 
 /*!
  * \internal
